@@ -245,12 +245,29 @@ def unpresentable_payloads():
     return out
 
 
-class _FixedPad(object):
-    def __init__(self, n):
-        self.n = n
+class _SafePadManager(AxolotlManager):
+    """AxolotlManager of a PEER / of the provisioning step (never of the stack under test).  The library pads every
+    plaintext with random.randint(1, 255) bytes; python-axolotl 0.2.2 (third party) does not PKCS7-pad a plaintext
+    whose length is a multiple of the AES block size and thereby corrupts it.  Here the pad length is chosen:
+    deterministic, varying, never block-aligned.  Everything else is the library's own code."""
+    _count = 0
+    _len = 0
 
-    def randint(self, a, b):
-        return self.n
+    def _generate_random_padding(self, message_length=None):
+        n = self._len if message_length is None else message_length
+        _SafePadManager._count += 1
+        pad = 1 + (_SafePadManager._count * 37) % 200
+        while (n + pad) % 16 == 0:
+            pad += 1
+        return bytes(bytearray([pad] * pad))
+
+    def encrypt(self, recipient_id, message):
+        self._len = len(message)
+        return AxolotlManager.encrypt(self, recipient_id, message)
+
+    def group_encrypt(self, groupid, message):
+        self._len = len(message)
+        return AxolotlManager.group_encrypt(self, groupid, message)
 
 
 def incoming_plaintexts():
@@ -309,7 +326,7 @@ def prepare():
     signed = me.generate_signed_prekey()
 
     peer_store = LiteAxolotlStore(":memory:")
-    peer = AxolotlManager(peer_store, PEER)
+    peer = _SafePadManager(peer_store, PEER)
     peer_prekeys = peer.level_prekeys()
     peer_signed = peer.generate_signed_prekey()
     peer_bundle = _bundle(peer, peer_prekeys[0], peer_signed)
@@ -319,21 +336,10 @@ def prepare():
     for g in groups:
         me.group_create_skmsg(g)
     peer.create_session(ME, _bundle(me, prekeys[0], signed))
-    # AxolotlManager pads with random.randint(1, 255) bytes.  python-axolotl 0.2.2 (third party) corrupts a
-    # plaintext whose padded length is a multiple of the AES block size, so the pad length is chosen here:
-    # deterministic, different per payload, never block-aligned.
-    import yowsup.axolotl.manager as manager_module
-    real_random = manager_module.random
     incoming = {}
-    try:
-        for i, pt in enumerate(incoming_plaintexts()):
-            pad = 1 + (i * 37) % 200
-            while (len(pt) + pad) % 16 == 0:
-                pad += 1
-            manager_module.random = _FixedPad(pad)
-            incoming[pt] = peer.encrypt(ME, pt).serialize()
-    finally:
-        manager_module.random = real_random
+    for pt in incoming_plaintexts():
+        incoming[pt] = peer.encrypt(ME, pt).serialize()
+    group_incoming = _provision_group_traffic(store, prekeys, signed)
     store.identityKeyStore.dbConn.commit()
     store.identityKeyStore.dbConn.close()
     peer_store.identityKeyStore.dbConn.close()
@@ -347,8 +353,104 @@ def prepare():
         "key_id": pk0.getId(),
         "key": pk0.getKeyPair().getPublicKey().getPublicKey(),
     }
-    _template = {"db": db, "incoming": incoming, "peer_keys": peer_keys}
+    _template = {"db": db, "incoming": incoming, "peer_keys": peer_keys, "group_incoming": group_incoming}
     return _template
+
+
+# ---- incoming GROUP traffic: real ciphertext produced by the library's own send path of a peer -----------------
+PEER2, PEER3 = "491700000021", "491700000022"          # outside the value alphabets
+PEER2_JID, PEER3_JID = PEER2 + "@s.whatsapp.net", PEER3 + "@s.whatsapp.net"
+GROUP_TRAFFIC = {
+    # scenario: (sending peer, group jid)
+    "first-nosession": (PEER2_JID, PEER2 + "-1500000001@g.us"),   # we have no session with the peer: pkmsg(SKDM)+skmsg
+    "first-session":   (PEER3_JID, PEER3 + "-1500000002@g.us"),   # established session: msg(SKDM)+skmsg
+    "later":           (PEER3_JID, PEER3 + "-1500000003@g.us"),   # sender key already known: skmsg only
+    "unknown-senderkey": (PEER2_JID, PEER2 + "-1500000004@g.us"), # skmsg only, sender key never distributed to us
+}
+GROUP_PAYLOADS = {"text": ("text", None, "pb:conversation"), "image": ("media", "image", "pb:image")}
+GROUP_VECTORS = 6
+
+
+def _provision_group_traffic(store, prekeys, signed):
+    """-> {(scenario, payload kind, vector): [(enc type, mediatype | None, ciphertext bytes), ...]}
+
+    Every stanza is produced by a real AxolotlSendLayer on the peer's manager (sendToGroupWithSessions, exactly
+    what the library does after the group info / key fetch steps); what is kept are the <enc> parts as the server
+    delivers them to us: our pairwise <enc> taken out of <participants><to jid=us>, next to the skmsg <enc>.
+    Our template store (`store`) gets an established session with PEER3 and PEER3's sender key for the "later"
+    group, through the same manager calls the receive layer makes."""
+    from yowsup.layers.protocol_messages.proto.e2e_pb2 import Message
+    me = _SafePadManager(store, ME)
+    peers = {}
+    for i, (jid, name) in enumerate(((PEER2_JID, PEER2), (PEER3_JID, PEER3))):
+        m = _SafePadManager(LiteAxolotlStore(":memory:"), name)
+        m.create_session(ME, _bundle(me, prekeys[1 + i], signed))
+        layer = AxolotlSendLayer()
+        layer._manager = m
+        wire = []
+        layer.toLower = wire.append
+        peers[jid] = (m, layer, wire)
+
+    # established session with PEER3: its first message reaches us, our reply reaches it
+    p3 = peers[PEER3_JID][0]
+    hello = S.ALPHABETS["pb:conversation"][0]
+    assert me.decrypt_pkmsg(PEER3, p3.encrypt(ME, hello).serialize(), True) == hello
+    assert p3.decrypt_msg(ME, me.encrypt(PEER3, hello).serialize(), True) == hello
+
+    def send(peer_jid, group, ptype, mediatype, payload, with_skdm):
+        m, layer, wire = peers[peer_jid]
+        del wire[:]
+        proto = ProtocolTreeNode("proto", {"mediatype": mediatype} if mediatype else {}, None, payload)
+        plain = ProtocolTreeNode("message", {"to": group, "type": ptype, "id": "peer-%d" % len(out)}, [proto])
+        layer.sendToGroupWithSessions(plain, [ME_JID] if with_skdm else [])
+        assert len(wire) == 1 and wire[0].tag == "message"
+        encs = []
+        part = wire[0].getChild("participants")
+        for to in (part.getAllChildren() if part is not None else []):
+            if to["jid"] == ME_JID:
+                encs.extend(to.getAllChildren("enc"))
+        encs.extend(wire[0].getAllChildren("enc"))
+        return [(e["type"], e["mediatype"], e.getData()) for e in encs]
+
+    out = {}
+    # "later": the peer's sender key for that group is already in our store
+    later_peer, later_group = GROUP_TRAFFIC["later"]
+    skdm = peers[later_peer][0].group_create_skmsg(later_group)
+    me.group_create_session(groupid=later_group, participantid=later_peer.split("@")[0], skmsgdata=skdm.serialize())
+    # "unknown-senderkey": the peer distributed its key to other members, never to us
+    unk_peer, unk_group = GROUP_TRAFFIC["unknown-senderkey"]
+    peers[unk_peer][0].group_create_skmsg(unk_group)
+    for scenario in ("first-nosession", "first-session", "later", "unknown-senderkey"):
+        peer_jid, group = GROUP_TRAFFIC[scenario]
+        for pk in ("text", "image"):
+            ptype, mediatype, alpha = GROUP_PAYLOADS[pk]
+            for v in range(GROUP_VECTORS):
+                encs = send(peer_jid, group, ptype, mediatype, S.ALPHABETS[alpha][v % 3], scenario.startswith("first"))
+                want = {"first-nosession": ["pkmsg", "skmsg"], "first-session": ["msg", "skmsg"]}.get(scenario, ["skmsg"])
+                assert [e[0] for e in encs] == want, (scenario, [e[0] for e in encs])
+                out[(scenario, pk, v)] = encs
+    for m, layer, wire in peers.values():
+        m._store.identityKeyStore.dbConn.close()
+    return out
+
+
+def group_message_for_us(scenario, payload_kind, v, attrs):
+    """(stanza as the server delivers it, the plaintext stanza the protocol layers must present)"""
+    encs = prepare()["group_incoming"][(scenario, payload_kind, v % GROUP_VECTORS)]
+    peer_jid, group = GROUP_TRAFFIC[scenario]
+    ptype, mediatype, alpha = GROUP_PAYLOADS[payload_kind]
+    attrs = dict(attrs, type=ptype, participant=peer_jid)
+    attrs["from"] = group
+    kids = []
+    for etype, emt, data in encs:
+        a = {"type": etype, "v": "2"}
+        if emt:
+            a["mediatype"] = emt
+        kids.append(ProtocolTreeNode("enc", a, None, data))
+    stanza = ProtocolTreeNode("message", dict(attrs), kids)
+    plain = ProtocolTreeNode("message", dict(attrs), [ProtocolTreeNode(
+        "proto", {"mediatype": mediatype} if mediatype else {}, None, S.ALPHABETS[alpha][v % 3])])
+    return stanza, plain
 
 
 FRESH_USER = "491700000009@s.whatsapp.net"            # no session in the template: a send needs a key fetch
